@@ -107,6 +107,10 @@ def request(nodes, cookie=None, click=None, special=None, src=SRC):
     """returns dict(rows=[uids], items=[[kind, uid]], links={uid: (param, value)}, cookie=str, state=set of uids named by the cookie)"""
     from DocumentTemplate.DT_HTML import HTML
     from TreeDisplay import TreeTag
+    import copy
+    # the tree is rebuilt for every request (rows read again from a database, fresh wrappers, another worker process): the
+    # nodes of this request are other Python objects than those of the request before, equal in everything the tag may use
+    nodes = copy.deepcopy(nodes)
     t = _t.get(src)
     if t is None:
         t = _t[src] = HTML(src)
